@@ -315,7 +315,8 @@ def _pump_cases(ctx):
             if len(p) * n > 70000:
                 continue
             yield {'kind': 'pumped', 'inputs': [p * n], 'builds': [True], 'pump': [p, k]}
-            yield {'kind': 'pumped', 'inputs': ['INSERT INTO X VALUES (' + ("'a', " * n) + '1);'], 'builds': [True], 'pump': ['values', k]}
+            if 6 * n <= 64000:      # the stated domain of the time bound: inputs <= 64 kB
+                yield {'kind': 'pumped', 'inputs': ['INSERT INTO X VALUES (' + ("'a', " * n) + '1);'], 'builds': [True], 'pump': ['values', k]}
 
 
 def selftest():
